@@ -670,6 +670,19 @@ pub fn unique_hash(r: &mut Rng, alg: Alg, serial: &mut u32) -> String {
     s
 }
 
+/// A hash as it may stand in a distinfo document: `unique_hash`, one time in
+/// six with its hex letters (partly) in upper case.  What is recorded and
+/// written back is the text of the line, whatever its case (C10, C11); C12,
+/// where the case of a recorded hash would matter, does not use this.
+pub fn doc_hash(r: &mut Rng, alg: Alg, serial: &mut u32) -> String {
+    let h = unique_hash(r, alg, serial);
+    match r.below(12) {
+        0 => h.to_ascii_uppercase(),
+        1 => h.chars().map(|c| if r.chance(1, 2) { c.to_ascii_uppercase() } else { c }).collect(),
+        _ => h,
+    }
+}
+
 pub fn gen_size(r: &mut Rng) -> u64 {
     match r.below(10) {
         0 => 0,
@@ -760,7 +773,7 @@ fn doc_rcsid(r: &mut Rng) -> Vec<u8> {
 
 fn file_model(r: &mut Rng, name: Vec<u8>, kind: Kind, serial: &mut u32, size: Option<u64>, allow_empty: bool) -> FileModel {
     let sums =
-        alg_subset(r, allow_empty).into_iter().map(|a| (a, unique_hash(r, a, serial))).collect();
+        alg_subset(r, allow_empty).into_iter().map(|a| (a, doc_hash(r, a, serial))).collect();
     FileModel { name, kind, sums, size }
 }
 
@@ -1125,7 +1138,7 @@ pub fn ignore_line(
                 let n = gen_size(r);
                 l.extend_from_slice(&w_size_line(r, name, n));
             } else {
-                let h = unique_hash(r, alg, serial);
+                let h = doc_hash(r, alg, serial);
                 l.extend_from_slice(&w_sum_line(r, alg, name, &h));
             }
             (l, LineClass::CommentedW)
@@ -1138,7 +1151,7 @@ pub fn ignore_line(
             (l, LineClass::Blank)
         }
         4 | 5 => {
-            let h = unique_hash(r, alg, serial);
+            let h = doc_hash(r, alg, serial);
             let a = r.pick(&UNKNOWN_ALGS);
             (fields(r, &[a, &paren(name), b"=", h.as_bytes()]), LineClass::UnknownAlg)
         }
@@ -1160,7 +1173,7 @@ pub fn ignore_line(
             {
                 first.insert(0, b'x');
             }
-            let h = unique_hash(r, alg, serial);
+            let h = doc_hash(r, alg, serial);
             let word: &[u8] = WORDS[r.below(WORDS.len())];
             let l = match r.below(3) {
                 0 => fields(r, &[&first, &paren(name), b"=", h.as_bytes()]),
@@ -1191,7 +1204,7 @@ pub fn ignore_line(
             let l = if r.chance(1, 4) {
                 fields(r, &[b"Size", &second, b"=", b"5", b"bytes"])
             } else {
-                let h = unique_hash(r, alg, serial);
+                let h = doc_hash(r, alg, serial);
                 fields(r, &[alg.keyword().as_bytes(), &second, b"=", h.as_bytes()])
             };
             (l, LineClass::GarbageParen)
@@ -1308,7 +1321,7 @@ fn c11_build(r: &mut Rng, names: Vec<(Vec<u8>, Kind)>, mut used: Vec<Vec<u8>>) -
         let algs = alg_subset(r, with_size);
         let mut own: Vec<WLine> = algs
             .into_iter()
-            .map(|a| WLine { file: i, size: None, sum: Some((a, unique_hash(r, a, &mut serial))) })
+            .map(|a| WLine { file: i, size: None, sum: Some((a, doc_hash(r, a, &mut serial))) })
             .collect();
         // Sometimes an algorithm occurs twice (or three times) for one file:
         // the statement records *each* recognised line, in line order.
@@ -1316,7 +1329,7 @@ fn c11_build(r: &mut Rng, names: Vec<(Vec<u8>, Kind)>, mut used: Vec<Vec<u8>>) -
             for _ in 0..r.range(1, 2) {
                 let k = r.below(own.len());
                 if let Some((a, _)) = own[k].sum.clone() {
-                    own.push(WLine { file: i, size: None, sum: Some((a, unique_hash(r, a, &mut serial))) });
+                    own.push(WLine { file: i, size: None, sum: Some((a, doc_hash(r, a, &mut serial))) });
                 }
             }
         }
@@ -1544,7 +1557,7 @@ pub fn alias_doc(r: &mut Rng) -> AliasDoc {
         let n = algs.len().min(3);
         let mut own: Vec<WLine> = algs[..n]
             .iter()
-            .map(|a| WLine { file: who, size: None, sum: Some((*a, unique_hash(r, *a, &mut serial))) })
+            .map(|a| WLine { file: who, size: None, sum: Some((*a, doc_hash(r, *a, &mut serial))) })
             .collect();
         if size_on == who {
             let pos = r.below(own.len() + 1);
@@ -1564,7 +1577,7 @@ pub fn alias_doc(r: &mut Rng) -> AliasDoc {
     let mut other_lines: Vec<WLine> = vec![];
     for (i, _) in others.iter().enumerate() {
         for a in alg_subset(r, false).into_iter().take(2) {
-            other_lines.push(WLine { file: 2 + i, size: None, sum: Some((a, unique_hash(r, a, &mut serial))) });
+            other_lines.push(WLine { file: 2 + i, size: None, sum: Some((a, doc_hash(r, a, &mut serial))) });
         }
     }
     // merge: main keeps its order, others are dropped in at random positions
